@@ -4,14 +4,11 @@
   instantiation of the core lemma of LayerSem.
 -/
 import Bridge.LayerAbs
+import Bridge.LayerKept
 import PtaProofs.Lemmas.LayerRule
 import PtaProofs.Lemmas.LayerChain
 namespace Pta
 open PtaSpec
-
-def nmF (x : Name) : Filter := .name (render x)
-
-theorem nmF_eq (x : Name) : nmF x = compileFilter (.named x) := rfl
 
 /-! ### `layerRes` / `resolves`, unpacked -/
 
@@ -277,6 +274,199 @@ theorem denotes_flatMap {mt : Str → Str → Bool} {nodes : List Str} {ι : Typ
     · exact .inl (List.mem_flatMap.2 ⟨on, hon, h'⟩)
     · exact .inr ⟨p, List.mem_flatMap.2 ⟨on, hon, hp⟩, hm⟩
 
+/-! ### the layers the rule works with -/
+
+theorem keptEntry_names (conv : List Str) (xs : List Name) (l : List Char × List Name) :
+    keptEntry conv (xs.map nmF) l = l := by
+  cases xs with
+  | nil => rfl
+  | cons x xs =>
+    cases xs with
+    | nil => simp [keptEntry, nmF]
+    | cons y ys => simp [keptEntry]
+
+theorem keptEntry_regex (conv : List Str) (p : Str) (l : List Char × List Name) :
+    keptEntry conv [.regex p] l = if conv.contains p then l else (l.1, []) := rfl
+
+theorem keptEntry_cases (conv : List Str) (F : List Filter) (l : List Char × List Name) :
+    keptEntry conv F l = l ∨ keptEntry conv F l = (l.1, []) := by
+  unfold keptEntry
+  split
+  · split
+    · exact .inl rfl
+    · exact .inr rfl
+  · exact .inl rfl
+
+theorem keptEntry_fst (conv : List Str) (F : List Filter) (l : List Char × List Name) :
+    (keptEntry conv F l).1 = l.1 := by
+  rcases keptEntry_cases conv F l with h | h <;> rw [h]
+
+theorem keptEntry_of_conv (conv : List Str) (F : List Filter) (l : List Char × List Name)
+    (h : ∀ f ∈ F, f.isRegex = true → f.id ∈ conv) : keptEntry conv F l = l := by
+  unfold keptEntry
+  split
+  · rename_i p
+    have hm : p ∈ conv := h (.regex p) (by simp) rfl
+    have : conv.contains p = true := List.contains_iff_mem.2 hm
+    rw [this, if_pos rfl]
+  · rfl
+
+/-- the mapping `_update_layer_mapping` builds is the rendering of the kept layers -/
+theorem update_eq_kept (mt : Str → Str → Bool) (nodes conv : List Str) (larch : LArch) (ls : Layers)
+    (h : resolves mt nodes larch ls = true) :
+    updateLayerMap mt nodes larch conv = (keptLayers conv larch ls).map fun l => (l.1, l.2.map render) := by
+  induction larch generalizing ls with
+  | nil =>
+    cases ls with
+    | nil => rfl
+    | cons l ls => simp [resolves] at h
+  | cons L Ls ih =>
+    cases ls with
+    | nil => simp [resolves] at h
+    | cons l ls =>
+      obtain ⟨h1, h2, h3⟩ := (resolves_cons mt nodes L Ls l ls).1 h
+      rw [updateLayerMap_cons]
+      show _ = (keptEntry conv L.2 l :: keptLayers conv Ls ls).map _
+      rw [List.map_cons, ← ih ls h3]
+      congr 1
+      obtain ⟨Ln, LF⟩ := L
+      simp only at h1 h2 ⊢
+      subst h1
+      rcases layerRes_cases h2 with rfl | ⟨p, rfl, hp⟩
+      · rw [entryOf_names, keptEntry_names]
+      · rw [entryOf_regex, keptEntry_regex]
+        cases conv.contains p
+        · rfl
+        · simp only [if_true, hp]
+
+theorem kept_sub (conv : List Str) (larch : LArch) (ls : Layers) :
+    ∀ l' ∈ keptLayers conv larch ls, ∃ l ∈ ls, l.1 = l'.1 ∧ (l'.2 = l.2 ∨ l'.2 = []) := by
+  induction larch generalizing ls with
+  | nil => intro l' hl'; simp [keptLayers] at hl'
+  | cons L Ls ih =>
+    cases ls with
+    | nil => intro l' hl'; simp [keptLayers] at hl'
+    | cons l ls =>
+      intro l' hl'
+      rcases List.mem_cons.1 hl' with rfl | hl'
+      · refine ⟨l, by simp, (keptEntry_fst _ _ _).symm, ?_⟩
+        rcases keptEntry_cases conv L.2 l with h | h <;> rw [h]
+        · exact .inl rfl
+        · exact .inr rfl
+      · obtain ⟨k, hk, h⟩ := ih ls l' hl'
+        exact ⟨k, List.mem_cons_of_mem _ hk, h⟩
+
+theorem kept_names (mt : Str → Str → Bool) (nodes conv : List Str) (larch : LArch) (ls : Layers)
+    (h : resolves mt nodes larch ls = true) : (keptLayers conv larch ls).map (·.1) = ls.map (·.1) := by
+  induction larch generalizing ls with
+  | nil =>
+    cases ls with
+    | nil => rfl
+    | cons l ls => simp [resolves] at h
+  | cons L Ls ih =>
+    cases ls with
+    | nil => simp [resolves] at h
+    | cons l ls =>
+      obtain ⟨_, _, h3⟩ := (resolves_cons mt nodes L Ls l ls).1 h
+      show (keptEntry conv L.2 l :: keptLayers conv Ls ls).map _ = _
+      rw [List.map_cons, List.map_cons, keptEntry_fst, ih ls h3]
+
+theorem kept_any (mt : Str → Str → Bool) (nodes conv : List Str) (larch : LArch) (ls : Layers)
+    (h : resolves mt nodes larch ls = true) (n : List Char) :
+    (keptLayers conv larch ls).any (·.1 == n) = ls.any (·.1 == n) := by
+  have h1 : ∀ ks : Layers, ks.any (·.1 == n) = (ks.map (·.1)).any (· == n) := fun ks => by rw [List.any_map]; rfl
+  rw [h1, h1, kept_names mt nodes conv larch ls h]
+
+/-- a layer all of whose regex filters were converted by the rule is kept in full -/
+theorem kept_get (mt : Str → Str → Bool) (nodes conv : List Str) (larch : LArch) (ls : Layers)
+    (h : resolves mt nodes larch ls = true) (n : List Char)
+    (hc : ∀ f ∈ larch.getD n, f.isRegex = true → f.id ∈ conv) :
+    (keptLayers conv larch ls).get n = ls.get n := by
+  induction larch generalizing ls with
+  | nil =>
+    cases ls with
+    | nil => rfl
+    | cons l ls => simp [resolves] at h
+  | cons L Ls ih =>
+    cases ls with
+    | nil => simp [resolves] at h
+    | cons l ls =>
+      obtain ⟨h1, _, h3⟩ := (resolves_cons mt nodes L Ls l ls).1 h
+      show Layers.get (keptEntry conv L.2 l :: keptLayers conv Ls ls) n = _
+      rw [layers_get_cons, layers_get_cons, keptEntry_fst]
+      rw [getD_cons, h1] at hc
+      cases hl : l.1 == n
+      · simp only [hl, Bool.false_eq_true, if_false] at hc ⊢
+        exact ih ls h3 hc
+      · simp only [hl, if_true] at hc ⊢
+        rw [keptEntry_of_conv conv L.2 l hc]
+
+theorem ruleConv_subj (larch : LArch) (r : LRuleSpec) :
+    ∀ f ∈ larch.getD r.subject, f.isRegex = true → f.id ∈ ruleConv larch r := by
+  intro f hf hr
+  exact List.mem_map.2 ⟨f, List.mem_filter.2 ⟨List.mem_append_left _ hf, hr⟩, rfl⟩
+
+theorem ruleConv_obj (larch : LArch) (r : LRuleSpec) (hany : r.anything = false) :
+    ∀ on ∈ r.objects, ∀ f ∈ larch.getD on, f.isRegex = true → f.id ∈ ruleConv larch r := by
+  intro on hon f hf hr
+  unfold ruleConv
+  simp only [hany, Bool.false_eq_true, if_false]
+  exact List.mem_map.2 ⟨f, List.mem_filter.2 ⟨List.mem_append_right _ (List.mem_flatMap.2 ⟨on, hon, hf⟩), hr⟩, rfl⟩
+
+/-- the relaxed domain of the resolved layers gives the domain of the core lemma on the layers the rule works with:
+    emptying layers the rule does not mention preserves everything -/
+theorem ldom_kept {a : Arch} {ls : Layers} {r : LRuleSpec} (hw : ArchWF a) (hd : LDom' a ls r) (mt : Str → Str → Bool)
+    (nodes : List Str) (larch : LArch) (hres : resolves mt nodes larch ls = true) :
+    LDom a (ruleLayers larch ls r) r := by
+  have hd0 := ldom_of_ldom' hw hd
+  have hsub := kept_sub (ruleConv larch r) larch ls
+  have hgetS := kept_get mt nodes (ruleConv larch r) larch ls hres r.subject (ruleConv_subj larch r)
+  refine ⟨?_, ?_, ?_, ?_, ?_, ?_, ?_, hd.objNe, ?_⟩
+  · intro l' hl' x hx
+    obtain ⟨k, hk, _, hc⟩ := hsub l' hl'
+    rcases hc with hc | hc
+    · rw [hc] at hx; exact hd0.wf k hk x hx
+    · rw [hc] at hx; cases hx
+  · show ∀ x ∈ Layers.get (keptLayers _ larch ls) r.subject, x ∈ a.nodes
+    rw [hgetS]; exact hd0.nodesS
+  · intro hany on hon
+    show ∀ x ∈ Layers.get (keptLayers _ larch ls) on, x ∈ a.nodes
+    rw [kept_get mt nodes _ larch ls hres on (ruleConv_obj larch r hany on hon)]
+    exact hd0.nodesO hany on hon
+  · intro l₁ h₁ l₂ h₂ x hx y hy hrel
+    obtain ⟨k₁, hk₁, hn₁, hc₁⟩ := hsub l₁ h₁
+    obtain ⟨k₂, hk₂, hn₂, hc₂⟩ := hsub l₂ h₂
+    rcases hc₁ with hc₁ | hc₁
+    · rcases hc₂ with hc₂ | hc₂
+      · rw [hc₁] at hx; rw [hc₂] at hy
+        rw [← hn₁, ← hn₂]
+        exact hd0.unrel k₁ hk₁ k₂ hk₂ x hx y hy hrel
+      · rw [hc₂] at hy; cases hy
+    · rw [hc₁] at hx; cases hx
+  · show nodupC ((keptLayers _ larch ls).map (·.1)) = true
+    rw [kept_names mt nodes _ larch ls hres]; exact hd.nodup
+  · show (keptLayers _ larch ls).any (·.1 == r.subject) = true
+    rw [kept_any mt nodes _ larch ls hres]; exact hd.subj
+  · show Layers.get (keptLayers _ larch ls) r.subject ≠ []
+    rw [hgetS]; exact hd0.subjNe
+  · intro hany on hon
+    obtain ⟨h1, h2, h3⟩ := hd0.obj hany on hon
+    refine ⟨?_, h2, ?_⟩
+    · show (keptLayers _ larch ls).any (·.1 == on) = true
+      rw [kept_any mt nodes _ larch ls hres]; exact h1
+    · show Layers.get (keptLayers _ larch ls) on ≠ []
+      rw [kept_get mt nodes _ larch ls hres on (ruleConv_obj larch r hany on hon)]; exact h3
+
+/-- name layers are kept as they are -/
+theorem keptLayers_names (conv : List Str) (ls : Layers) : keptLayers conv (compileLArch ls) ls = ls := by
+  induction ls with
+  | nil => rfl
+  | cons l ls ih =>
+    show keptEntry conv (l.2.map fun m => Filter.name (render m)) l :: keptLayers conv (compileLArch ls) ls = _
+    rw [ih]
+    congr 1
+    exact keptEntry_names conv l.2 l
+
 /-! ### the context of the core lemma, on name and regex layers -/
 
 theorem layerRes_ne_nil {mt : Str → Str → Bool} {nodes : List Str} {F : List Filter} {l : List Name}
@@ -292,157 +482,63 @@ theorem isStrictSub_self (p : Str) : isStrictSub p p = false := by
     simp at this
     omega
 
-theorem dedupSubjects_layer {a : Arch} (hw : ArchWF a) {mt : Str → Str → Bool} {nodes : List Str} {F : List Filter}
-    {l : List Name} (h : layerRes mt nodes F l = true) (hn : ∀ x ∈ l, x ∈ a.nodes)
-    (hu : ∀ x ∈ l, ∀ y ∈ l, x = y ∨ related x y = false) : dedupSubjects F = F := by
-  rcases layerRes_cases h with rfl | ⟨p, rfl, _⟩
-  · have : l.map nmF = (l.map SFilter.named).map compileFilter := by
-      rw [List.map_map]; rfl
-    rw [this]
-    apply dedupSubjects_strict hw
-    · intro f hf
-      obtain ⟨x, hx, rfl⟩ := List.mem_map.1 hf
-      exact hn x hx
-    · intro f hf f' hf'
-      obtain ⟨x, hx, rfl⟩ := List.mem_map.1 hf
-      obtain ⟨y, hy, rfl⟩ := List.mem_map.1 hf'
-      rcases hu x hx y hy with rfl | h
-      · exact .inl rfl
-      · exact .inr h
-  · simp [dedupSubjects, Filter.id, isStrictSub_self]
-
-theorem lctx_general {a : Arch} {ls : Layers} {r : LRuleSpec} (hw : ArchWF a) (hd : LDom a ls r)
-    (mt : Str → Str → Bool) (nodes : List Str) (larch : LArch) (hres : resolves mt nodes larch ls = true)
-    (conv : List Str)
-    (hcS : ∀ f ∈ larch.getD r.subject, f.isRegex = true → f.id ∈ conv)
-    (hcO : r.anything = false → ∀ on ∈ r.objects, ∀ f ∈ larch.getD on, f.isRegex = true → f.id ∈ conv)
-    (S O : List Name) (hmemS : ∀ x, x ∈ S ↔ x ∈ ls.get r.subject)
-    (hmemO : ∀ x, x ∈ O ↔ if r.anything = true then x ∈ S else ∃ on ∈ r.objects, x ∈ ls.get on) :
-    ∃ tag, LCtx a ls r (updateLayerMap mt nodes larch conv) S O tag := by
-  have c0 := lctx_names hw hd
-  have M1 := updateLayerMap_sub mt nodes conv larch ls hres
-  have hlistedWF : ∀ l ∈ ls, ∀ x ∈ l.2, nameWF x = true := fun l hl x hx => hw.nwf x (hd.nodes l hl x hx)
-  have hsdmap : ∀ l ∈ ls, (l.2.map render).map splitDots = l.2 := by
-    intro l hl
-    rw [List.map_map]
-    conv => rhs; rw [← List.map_id l.2]
-    apply List.map_congr_left
-    intro x hx
-    exact splitDots_render x (hlistedWF l hl x hx)
-  have hrsmap : ∀ l ∈ ls, ((l.2.map render).map splitDots).map render = l.2.map render := by
-    intro l hl; rw [hsdmap l hl]
-  -- the component-level mapping
-  have hm_eq : ((updateLayerMap mt nodes larch conv).map fun e => (e.1, e.2.map splitDots)).map
-      (fun l => (l.1, l.2.map render)) = updateLayerMap mt nodes larch conv := by
-    rw [List.map_map]
-    conv => rhs; rw [← List.map_id (updateLayerMap mt nodes larch conv)]
-    apply List.map_congr_left
-    intro e he
-    obtain ⟨l, hl, h1, h2⟩ := M1 e he
-    obtain ⟨e1, e2⟩ := e
-    simp only at h1 h2
-    rcases h2 with rfl | rfl
-    · simp only [Function.comp_def, id, hrsmap l hl]
-    · rfl
-  have hsub : ∀ l' ∈ (updateLayerMap mt nodes larch conv).map (fun e => (e.1, e.2.map splitDots)),
-      ∃ l ∈ ls, l.1 = l'.1 ∧ (l'.2 = l.2 ∨ l'.2 = []) := by
-    intro l' hl'
-    obtain ⟨e, he, rfl⟩ := List.mem_map.1 hl'
-    obtain ⟨l, hl, h1, h2⟩ := M1 e he
-    refine ⟨l, hl, h1, ?_⟩
-    rcases h2 with h2 | h2
-    · left; simp only [h2, hsdmap l hl]
-    · right; simp only [h2, List.map_nil]
-  have hU : UnrelMap ((updateLayerMap mt nodes larch conv).map fun e => (e.1, e.2.map splitDots)) := by
-    intro l₁ h₁ l₂ h₂ x hx y hy hrel
-    obtain ⟨k₁, hk₁, hn₁, hc₁⟩ := hsub l₁ h₁
-    obtain ⟨k₂, hk₂, hn₂, hc₂⟩ := hsub l₂ h₂
-    rcases hc₁ with hc₁ | hc₁
-    · rcases hc₂ with hc₂ | hc₂
-      · rw [hc₁] at hx; rw [hc₂] at hy
-        have := hd.unrel k₁ hk₁ k₂ hk₂ x hx y hy hrel
-        exact ⟨this.1, by rw [← hn₁, ← hn₂]; exact this.2⟩
-      · rw [hc₂] at hy; cases hy
-    · rw [hc₁] at hx; cases hx
-  have hmWF : ∀ l' ∈ (updateLayerMap mt nodes larch conv).map (fun e => (e.1, e.2.map splitDots)),
-      ∀ x ∈ l'.2, nameWF x = true := by
-    intro l' hl' x hx
-    obtain ⟨k, hk, _, hc⟩ := hsub l' hl'
-    rcases hc with hc | hc
-    · rw [hc] at hx; exact hlistedWF k hk x hx
-    · rw [hc] at hx; cases hx
-  have hkeep : ∀ l ∈ ls, (∀ f ∈ larch.getD l.1, f.isRegex = true → f.id ∈ conv) →
-      l ∈ (updateLayerMap mt nodes larch conv).map (fun e => (e.1, e.2.map splitDots)) := by
-    intro l hl hc
-    have := updateLayerMap_keep mt nodes conv larch ls hres hd.nodup l hl hc
-    refine List.mem_map.2 ⟨_, this, ?_⟩
-    simp only [hsdmap l hl]
-  obtain ⟨lS, hlS, hlS1, hlS2⟩ := get_of_any ls r.subject hd.subj
-  have hSsub : ∀ x, x ∈ S ++ O → x ∈ ls.get r.subject ++ objMods ls r := by
-    intro x hx
-    rcases List.mem_append.1 hx with h | h
-    · exact List.mem_append_left _ ((hmemS x).1 h)
-    · apply List.mem_append_right
-      rw [c0.memO x]
-      have := (hmemO x).1 h
-      split at this
-      · rename_i hany
-        simp only [hany, if_true]
-        exact (hmemS x).1 this
-      · rename_i hany
-        simp only [hany]
-        exact this
-  refine ⟨layerTag ((updateLayerMap mt nodes larch conv).map fun e => (e.1, e.2.map splitDots)),
-    ?_, ?_, ?_, ?_, hmemS, hmemO, ?_, ?_, ?_, ?_, c0.objNe, c0.subjNotObj, ?_⟩
-  · intro n hn
-    have := layerOf_correct _ hU hmWF n (hw.nwf n hn)
-    rw [hm_eq] at this
-    exact this
-  · intro n
-    rw [← hlS1]
-    exact tag_iff _ ls hU hsub hd.nodup lS hlS (hkeep lS hlS (by rw [hlS1]; exact hcS)) n
-  · intro hany on hon n
-    obtain ⟨l, hl, h1, _⟩ := get_of_any ls on (hd.obj hany on hon).1
-    rw [← h1]
-    exact tag_iff _ ls hU hsub hd.nodup l hl (hkeep l hl (by rw [h1]; exact hcO hany on hon)) n
-  · intro hany on hon
-    obtain ⟨l, hl, h1, _⟩ := get_of_any ls on (hd.obj hany on hon).1
-    exact ⟨(l.1, l.2.map render),
-      updateLayerMap_keep mt nodes conv larch ls hres hd.nodup l hl (by rw [h1]; exact hcO hany on hon), h1⟩
+theorem denotes_names (mt : Str → Str → Bool) (nodes : List Str) (xs : List Name) :
+    Denotes mt nodes (xs.map nmF) (fun x => x ∈ xs) := by
+  constructor
+  · intro f hf
+    obtain ⟨x, hx, rfl⟩ := List.mem_map.1 hf
+    exact .inl ⟨x, rfl, hx⟩
   · intro x hx
-    exact c0.nodes x (hSsub x hx)
-  · intro x hx y hy
-    exact c0.unrel x (hSsub x hx) y (hSsub y hy)
-  · obtain ⟨x, hx⟩ := List.exists_mem_of_ne_nil _ c0.sne
-    intro h0
-    have := (hmemS x).2 hx
-    rw [h0] at this; cases this
-  · obtain ⟨x, hx⟩ := List.exists_mem_of_ne_nil _ c0.one
-    have hx' := (c0.memO x).1 hx
-    intro h0
-    have : x ∈ O := by
-      rw [hmemO x]
-      split
-      · rename_i hany
-        simp only [hany, if_true] at hx'
-        exact (hmemS x).2 hx'
-      · rename_i hany
-        simp only [hany] at hx'
-        exact hx'
-    rw [h0] at this; cases this
-  · have := consistent_of_unrelMap _ hU hmWF
-    rw [hm_eq] at this
-    exact this
+    exact .inl (List.mem_map_of_mem hx)
+
+theorem filter_isRegex_nmF (xs : List Name) : (xs.map nmF).filter (·.isRegex) = [] := by
+  rw [List.filter_eq_nil_iff]
+  intro F hF
+  obtain ⟨f, _, rfl⟩ := List.mem_map.1 hF
+  simp [nmF, Filter.isRegex]
+
+/-- the subject filters after `_convert_aliases`: listed modules that are sub modules of other listed modules of the
+    layer are dropped (they must exist), the retained modules generate the same layer; a regex layer is untouched -/
+theorem subject_filters {a : Arch} {g : PGraph Str} (hw : ArchWF a) (hg : GraphOf a g) (mt : Str → Str → Bool)
+    {F : List Filter} {l : List Name} (h : layerRes mt g.nodes F l = true) (hne : l ≠ [])
+    (hn : ∀ x ∈ l, x ∈ a.nodes) :
+    ∃ D : List Name, Denotes mt g.nodes (dedupSubjects F) (fun x => x ∈ D) ∧ (∀ x ∈ D, x ∈ l) ∧
+      (∀ n, inLayer D n = inLayer l n) ∧ (dedupSubjects F).filter (·.isRegex) = F.filter (·.isRegex) ∧
+      droppedAbsentIn g F = false ∧ dedupSubjects F ≠ [] := by
+  rcases layerRes_cases h with rfl | ⟨p, rfl, _⟩
+  · have hdd := dedupSubjects_names l (fun x hx => hw.nwf x (hn x hx))
+    refine ⟨minimals l, ?_, fun x hx => minimals_sub hx, inLayer_minimals l, ?_, ?_, ?_⟩
+    · rw [hdd]; exact denotes_names mt g.nodes _
+    · rw [hdd, filter_isRegex_nmF, filter_isRegex_nmF]
+    · apply droppedAbsentIn_of_nodes
+      intro f hf _
+      obtain ⟨x, hx, rfl⟩ := List.mem_map.1 hf
+      exact hasNode_render hg x (hn x hx)
+    · rw [hdd]
+      obtain ⟨x, hx⟩ := List.exists_mem_of_ne_nil _ hne
+      obtain ⟨m, hm, _⟩ := minimals_cover l x.length x hx (Nat.le_refl _)
+      intro h0
+      rw [List.map_eq_nil_iff] at h0
+      rw [h0] at hm; cases hm
+  · have hdd : dedupSubjects [Filter.regex p] = [Filter.regex p] := by
+      simp [dedupSubjects, Filter.id, isStrictSub_self]
+    refine ⟨l, ?_, fun x hx => hx, fun _ => rfl, by rw [hdd], droppedAbsentIn_of_dedup_eq g _ hdd, by rw [hdd]; simp⟩
+    rw [hdd]
+    exact denotes_layer h hne
 
 /-- the layer mapping `LayerRuleMatcher` works with: regex layers the rule mentions are resolved, the others emptied -/
 def ruleLayerMap (mt : Str → Str → Bool) (g : PGraph Str) (larch : LArch) (r : LRuleSpec) : LayerMap :=
-  updateLayerMap mt g.nodes larch
-    (((larch.getD r.subject ++
-        (if r.anything = true then larch.getD r.subject else r.objects.flatMap larch.getD)).filter (·.isRegex)).map (·.id))
+  updateLayerMap mt g.nodes larch (ruleConv larch r)
 
 theorem ruleLayerMap_eq_ruleMap (mt : Str → Str → Bool) (g : PGraph Str) (larch : LArch) (r : LRuleSpec) :
     ruleLayerMap mt g larch r = ruleMap mt g larch (larch.getD r.subject)
       (if r.anything = true then larch.getD r.subject else r.objects.flatMap larch.getD) := rfl
+
+/-- the mapping is the rendering of the layers the rule works with -/
+theorem ruleLayerMap_eq (mt : Str → Str → Bool) (g : PGraph Str) (larch : LArch) (ls : Layers) (r : LRuleSpec)
+    (hres : resolves mt g.nodes larch ls = true) :
+    ruleLayerMap mt g larch r = (ruleLayers larch ls r).map fun l => (l.1, l.2.map render) :=
+  update_eq_kept mt g.nodes (ruleConv larch r) larch ls hres
 
 /-- the repaired matcher on a compiled layer rule: if regex conversion and graph queries succeed and the resolved layer
     mapping assigns some identifier to two different layers, `assert_applies` raises `LayerMismatch` -/
@@ -461,113 +557,201 @@ theorem overlapping_layers_rejected_lemma (mt : Str → Str → Bool) (g : PGrap
   rw [ruleLayerMap_eq_ruleMap] at hov
   exact matchLayerRule_inconsistent mt g larch _ _ _ _ subs objs q h1 h2 h3 hov
 
-/-- on name and regex layers, `assert_applies` is the tail of `matchLayerRule` on the modules of the subject layer and
-    of the object layers, with a layer mapping that satisfies the hypotheses of the core lemma -/
+/-- on name and regex layers, `assert_applies` is the tail of `matchLayerRule` on modules generating the subject layer and
+    the modules of the object layers, with a layer mapping that satisfies the hypotheses of the core lemma.
+    The domain hypothesis is about the layers the rule works with (`ruleLayers`) -/
 theorem layer_reduce (mt : Str → Str → Bool) (a : Arch) (g : PGraph Str) (hg : GraphOf a g)
-    (hwf : a.wf = true) (ls : Layers) (r : LRuleSpec) (hdom : layerDomain a ls r = true)
+    (hwf : a.wf = true) (ls : Layers) (r : LRuleSpec)
     (hany : r.anything = true → r.verb = .shouldNot)
-    (larch : LArch) (hres : resolves mt g.nodes larch ls = true) :
-    ∃ S O tag, LCtx a ls r (ruleLayerMap mt g larch r) S O tag ∧
+    (larch : LArch) (hres : resolves mt g.nodes larch ls = true) (hd : LDom a (ruleLayers larch ls r) r) :
+    ∃ S O, LCtx a (ruleLayers larch ls r) r (ruleLayerMap mt g larch r) S O (layerTag (ruleLayers larch ls r)) ∧
       assertAppliesLayer mt (compileLayerRule larch r) g =
         matchTail g (ruleLayerMap mt g larch r) (behL r) r.importDir
           ((S.map SFilter.named).map compileFilter) ((O.map SFilter.named).map compileFilter) := by
   have hw := archWF_of_wf a hwf
-  have hd := ldom_of_layerDomain a ls r hdom
-  have c0 := lctx_names hw hd
-  have hresS := resolves_getD mt g.nodes larch ls hres r.subject hd.subj
-  have hnodesGet : ∀ n x, x ∈ ls.get n → x ∈ a.nodes := by
-    intro n x hx
-    obtain ⟨l, hl, _, hxl⟩ := mem_of_mem_get ls n x hx
-    exact hd.nodes l hl x hxl
-  have hdenS := denotes_layer hresS c0.sne
-  obtain ⟨S, hconvS, hmemS⟩ := convertFilters_layer hw hg mt _ _ hdenS (hnodesGet _)
-  have hFSne := layerRes_ne_nil hresS c0.sne
-  have hdd : dedupSubjects (larch.getD r.subject) = larch.getD r.subject :=
-    dedupSubjects_layer hw hresS (hnodesGet _)
-      (fun x hx y hy => c0.unrel x (List.mem_append_left _ hx) y (List.mem_append_left _ hy))
+  have hmap := ruleLayerMap_eq mt g larch ls r hres
+  have hgetS : (ruleLayers larch ls r).get r.subject = ls.get r.subject :=
+    kept_get mt g.nodes _ larch ls hres r.subject (ruleConv_subj larch r)
+  have hanyS : ls.any (·.1 == r.subject) = true := by
+    rw [← kept_any mt g.nodes (ruleConv larch r) larch ls hres]; exact hd.subj
+  have hresS := resolves_getD mt g.nodes larch ls hres r.subject hanyS
+  have hlne : ls.get r.subject ≠ [] := by rw [← hgetS]; exact hd.subjNe
+  have hnodesS : ∀ x ∈ ls.get r.subject, x ∈ a.nodes := by
+    intro x hx; rw [← hgetS] at hx; exact hd.nodesS x hx
+  have hFSne := layerRes_ne_nil hresS hlne
   cases hanyB : r.anything
   · -- the twelve shapes
-    have hresO : ∀ on ∈ r.objects, layerRes mt g.nodes (larch.getD on) (ls.get on) = true :=
-      fun on hon => resolves_getD mt g.nodes larch ls hres on (hd.obj hanyB on hon).1
+    have hgetO : ∀ on ∈ r.objects, (ruleLayers larch ls r).get on = ls.get on :=
+      fun on hon => kept_get mt g.nodes _ larch ls hres on (ruleConv_obj larch r hanyB on hon)
+    have hresO : ∀ on ∈ r.objects, layerRes mt g.nodes (larch.getD on) (ls.get on) = true := by
+      intro on hon
+      apply resolves_getD mt g.nodes larch ls hres on
+      rw [← kept_any mt g.nodes (ruleConv larch r) larch ls hres]; exact (hd.obj hanyB on hon).1
+    have hOne : ∀ on ∈ r.objects, ls.get on ≠ [] := by
+      intro on hon; rw [← hgetO on hon]; exact (hd.obj hanyB on hon).2.2
+    have hdenS := denotes_layer hresS hlne
+    obtain ⟨S, hconvS, hmemS⟩ := convertFilters_layer hw hg mt _ _ hdenS hnodesS
     have hdenO := denotes_flatMap (mt := mt) (nodes := g.nodes) r.objects larch.getD ls.get
-      (fun on hon => denotes_layer (hresO on hon) (c0.objNe hanyB on hon))
+      (fun on hon => denotes_layer (hresO on hon) (hOne on hon))
     obtain ⟨O, hconvO, hmemO⟩ := convertFilters_layer hw hg mt _ _ hdenO (by
-      rintro x ⟨on, _, hx⟩; exact hnodesGet on x hx)
+      rintro x ⟨on, hon, hx⟩
+      rw [← hgetO on hon] at hx
+      exact hd.nodesO hanyB on hon x hx)
     have hFOne : r.objects.flatMap larch.getD ≠ [] := by
       obtain ⟨on, hon⟩ := List.exists_mem_of_ne_nil _ (hd.objNe hanyB)
-      obtain ⟨f, hf⟩ := List.exists_mem_of_ne_nil _ (layerRes_ne_nil (hresO on hon) (c0.objNe hanyB on hon))
+      obtain ⟨f, hf⟩ := List.exists_mem_of_ne_nil _ (layerRes_ne_nil (hresO on hon) (hOne on hon))
       intro h0
       have : f ∈ r.objects.flatMap larch.getD := List.mem_flatMap.2 ⟨on, hon, hf⟩
       rw [h0] at this; cases this
-    obtain ⟨tag, c⟩ := lctx_general hw hd mt g.nodes larch hres
-      (((larch.getD r.subject ++ r.objects.flatMap larch.getD).filter (·.isRegex)).map (·.id))
-      (by
-        intro f hf hr
-        exact List.mem_map.2 ⟨f, List.mem_filter.2 ⟨List.mem_append_left _ hf, hr⟩, rfl⟩)
-      (by
-        intro _ on hon f hf hr
-        exact List.mem_map.2 ⟨f, List.mem_filter.2 ⟨List.mem_append_right _ (List.mem_flatMap.2 ⟨on, hon, hf⟩), hr⟩, rfl⟩)
-      S O hmemS (by
-        intro x
+    have c := lctx_core hw hd S O
+      (fun n => by rw [hgetS]; exact inLayer_congr hmemS n)
+      (fun x hx => by rw [hgetS]; exact (hmemS x).1 hx)
+      (fun x => by
         simp only [hanyB, Bool.false_eq_true, if_false]
-        exact hmemO x)
-    refine ⟨S, O, tag, ?_, ?_⟩
-    · unfold ruleLayerMap
-      simp only [hanyB, Bool.false_eq_true, if_false]
-      exact c
-    · rw [assertAppliesLayer_compile mt g larch r hFSne (.inr hFOne) hany (fun _ => hdd)]
-      unfold ruleLayerMap
-      simp only [hanyB, Bool.false_eq_true, if_false]
-      rw [matchLayerRule_eq mt g larch _ _ _ _ _ _ hconvS hconvO c.cons]
+        rw [hmemO x]
+        constructor
+        · rintro ⟨on, hon, hx⟩; exact ⟨on, hon, by rw [hgetO on hon]; exact hx⟩
+        · rintro ⟨on, hon, hx⟩; exact ⟨on, hon, by rw [← hgetO on hon]; exact hx⟩)
+    rw [← hmap] at c
+    refine ⟨S, O, c, ?_⟩
+    have hsF : subjF larch r = larch.getD r.subject := by simp [subjF, hanyB]
+    have hoF : objF larch r = r.objects.flatMap larch.getD := by simp [objF, hanyB]
+    rw [assertAppliesLayer_compile' mt g larch r (by rw [hsF]; exact hFSne) (.inr hFOne) hany
+      (fun h => by rw [hanyB] at h; cases h), hsF, hoF]
+    have hconv : ((larch.getD r.subject ++ r.objects.flatMap larch.getD).filter (·.isRegex)).map (·.id) =
+        ruleConv larch r := by simp [ruleConv, hanyB]
+    rw [matchLayerRule_eq mt g larch _ _ _ _ _ _ hconvS hconvO (by rw [hconv]; exact c.cons), hconv]
+    rfl
   · -- the two `any layer` aliases
-    obtain ⟨tag, c⟩ := lctx_general hw hd mt g.nodes larch hres
-      (((larch.getD r.subject ++ larch.getD r.subject).filter (·.isRegex)).map (·.id))
-      (by
-        intro f hf hr
-        exact List.mem_map.2 ⟨f, List.mem_filter.2 ⟨List.mem_append_left _ hf, hr⟩, rfl⟩)
-      (by
-        intro h; rw [hanyB] at h; cases h)
-      S S hmemS (by
-        intro x
-        simp only [hanyB, if_true])
-    refine ⟨S, S, tag, ?_, ?_⟩
-    · unfold ruleLayerMap
-      simp only [hanyB, if_true]
-      exact c
-    · rw [assertAppliesLayer_compile mt g larch r hFSne (.inl hanyB) hany (fun _ => hdd)]
-      unfold ruleLayerMap
-      simp only [hanyB, if_true]
-      rw [matchLayerRule_eq mt g larch _ _ _ _ _ _ hconvS hconvS c.cons]
+    obtain ⟨D, hden, hDsub, hDin, hDreg, hDabs, hDne⟩ := subject_filters hw hg mt hresS hlne hnodesS
+    obtain ⟨S, hconvS, hmemS⟩ := convertFilters_layer hw hg mt _ _ hden (fun x hx => hnodesS x (hDsub x hx))
+    have c := lctx_core hw hd S S
+      (fun n => by rw [hgetS, ← hDin]; exact inLayer_congr hmemS n)
+      (fun x hx => by rw [hgetS]; exact hDsub x ((hmemS x).1 hx))
+      (fun x => by simp only [hanyB, if_true])
+    rw [← hmap] at c
+    refine ⟨S, S, c, ?_⟩
+    have hsF : subjF larch r = dedupSubjects (larch.getD r.subject) := by simp [subjF, hanyB]
+    have hoF : objF larch r = dedupSubjects (larch.getD r.subject) := by simp [objF, hanyB]
+    rw [assertAppliesLayer_compile' mt g larch r (by rw [hsF]; exact hDne) (.inl hanyB) hany (fun _ => hDabs), hsF, hoF]
+    have hconv : ((dedupSubjects (larch.getD r.subject) ++ dedupSubjects (larch.getD r.subject)).filter
+        (·.isRegex)).map (·.id) = ruleConv larch r := by
+      simp only [ruleConv, hanyB, if_true, List.filter_append, hDreg]
+    rw [matchLayerRule_eq mt g larch _ _ _ _ _ _ hconvS hconvS (by rw [hconv]; exact c.cons), hconv]
+    rfl
+
+/-- the specification's verdict looks only at the layers the rule mentions -/
+theorem layerVerdict_congr (a : Arch) (ls ls' : Layers) (r : LRuleSpec)
+    (hs : ls.get r.subject = ls'.get r.subject) (ho : r.anything = false → ∀ on ∈ r.objects, ls.get on = ls'.get on) :
+    layerVerdict a ls r = layerVerdict a ls' r := by
+  unfold layerVerdict
+  cases hany : r.anything
+  · have : r.objects.map ls.get = r.objects.map ls'.get := List.map_congr_left (ho hany)
+    rw [hs, this]
+  · rw [hs]
+    simp
+
+/-- … in particular it is the verdict on the layers the rule works with -/
+theorem layerVerdict_ruleLayers (mt : Str → Str → Bool) (nodes : List Str) (a : Arch) (larch : LArch) (ls : Layers)
+    (r : LRuleSpec) (hres : resolves mt nodes larch ls = true) :
+    layerVerdict a (ruleLayers larch ls r) r = layerVerdict a ls r :=
+  layerVerdict_congr a _ _ r (kept_get mt nodes _ larch ls hres r.subject (ruleConv_subj larch r))
+    (fun hany on hon => kept_get mt nodes _ larch ls hres on (ruleConv_obj larch r hany on hon))
+
+/-- C05 on name and regex layers, domain stated on the layers the rule works with -/
+theorem layer_verdict_kept_lemma (mt : Str → Str → Bool) (a : Arch) (g : PGraph Str) (hg : GraphOf a g)
+    (hwf : a.wf = true) (ls : Layers) (r : LRuleSpec)
+    (hany : r.anything = true → r.verb = .shouldNot)
+    (larch : LArch) (hres : resolves mt g.nodes larch ls = true)
+    (hdom : layerDomainK a (ruleLayers larch ls r) r = true) :
+    (assertAppliesLayer mt (compileLayerRule larch r) g).cls = VClass.ofBool (layerVerdict a ls r) := by
+  obtain ⟨S, O, c, heq⟩ := layer_reduce mt a g hg hwf ls r hany larch hres (ldom_of_layerDomainK a _ r hdom)
+  rw [heq, ← layerVerdict_ruleLayers mt g.nodes a larch ls r hres]
+  exact matchTail_verdict c (archWF_of_wf a hwf) hg hany
+
+/-- the relaxed domain of the resolved layers, as the domain of the core lemma on the layers the rule works with -/
+theorem ldom_of_layerDomain' (mt : Str → Str → Bool) (nodes : List Str) (a : Arch) (hwf : a.wf = true) (ls : Layers)
+    (r : LRuleSpec) (hdom : layerDomain' a ls r = true) (larch : LArch) (hres : resolves mt nodes larch ls = true) :
+    LDom a (ruleLayers larch ls r) r :=
+  ldom_kept (archWF_of_wf a hwf) (ldom'_of_layerDomain' a ls r hdom) mt nodes larch hres
 
 /-- C05 on name and regex layers -/
 theorem layer_verdict_lemma (mt : Str → Str → Bool) (a : Arch) (g : PGraph Str) (hg : GraphOf a g)
-    (hwf : a.wf = true) (ls : Layers) (r : LRuleSpec) (hdom : layerDomain a ls r = true)
+    (hwf : a.wf = true) (ls : Layers) (r : LRuleSpec) (hdom : layerDomain' a ls r = true)
     (hany : r.anything = true → r.verb = .shouldNot)
     (larch : LArch) (hres : resolves mt g.nodes larch ls = true) :
     (assertAppliesLayer mt (compileLayerRule larch r) g).cls = VClass.ofBool (layerVerdict a ls r) := by
-  obtain ⟨S, O, tag, c, heq⟩ := layer_reduce mt a g hg hwf ls r hdom hany larch hres
-  rw [heq]
+  obtain ⟨S, O, c, heq⟩ := layer_reduce mt a g hg hwf ls r hany larch hres
+    (ldom_of_layerDomain' mt g.nodes a hwf ls r hdom larch hres)
+  rw [heq, ← layerVerdict_ruleLayers mt g.nodes a larch ls r hres]
   exact matchTail_verdict c (archWF_of_wf a hwf) hg hany
 
 /-- soundness of the layer report: every reported import line is an import of the architecture, and the two layer
     tags printed with it are the (successful) lookups of its ends and differ -/
+theorem layer_report_sound_kept_lemma (mt : Str → Str → Bool) (a : Arch) (g : PGraph Str) (hg : GraphOf a g)
+    (hwf : a.wf = true) (ls : Layers) (r : LRuleSpec)
+    (hany : r.anything = true → r.verb = .shouldNot)
+    (larch : LArch) (hres : resolves mt g.nodes larch ls = true) (hd : LDom a (ruleLayers larch ls r) r)
+    (items : List LItem)
+    (h : assertAppliesLayer mt (compileLayerRule larch r) g = .fail items) :
+    ∀ u v b tu tv, LItem.imp u v b tu tv ∈ items →
+      (∃ e ∈ a.imports, u = render e.1 ∧ v = render e.2 ∧ tu = layerTag (ruleLayers larch ls r) e.1 ∧
+        tv = layerTag (ruleLayers larch ls r) e.2) ∧ v ∈ g.importSuccs u ∧
+      (ruleLayerMap mt g larch r).layerOf u = .ok tu ∧ (ruleLayerMap mt g larch r).layerOf v = .ok tv ∧ tu ≠ tv := by
+  have hw := archWF_of_wf a hwf
+  obtain ⟨S, O, c, heq⟩ := layer_reduce mt a g hg hwf ls r hany larch hres hd
+  rw [heq] at h
+  intro u v b tu tv hmem
+  obtain ⟨e, he, hu, hv, htu, htv, hne⟩ := matchTail_sound c hw hg items h u v b tu tv hmem
+  refine ⟨⟨e, he, hu, hv, htu, htv⟩, ?_, ?_, ?_, hne⟩
+  · rw [hu, hv]; exact (hg.succs _ _).2 ⟨e, he, rfl, rfl⟩
+  · rw [hu, htu]; exact c.tagOk _ (hw.impL e he)
+  · rw [hv, htv]; exact c.tagOk _ (hw.impR e he)
+
 theorem layer_report_sound_lemma (mt : Str → Str → Bool) (a : Arch) (g : PGraph Str) (hg : GraphOf a g)
-    (hwf : a.wf = true) (ls : Layers) (r : LRuleSpec) (hdom : layerDomain a ls r = true)
+    (hwf : a.wf = true) (ls : Layers) (r : LRuleSpec) (hdom : layerDomain' a ls r = true)
     (hany : r.anything = true → r.verb = .shouldNot)
     (larch : LArch) (hres : resolves mt g.nodes larch ls = true) (items : List LItem)
     (h : assertAppliesLayer mt (compileLayerRule larch r) g = .fail items) :
     ∀ u v b tu tv, LItem.imp u v b tu tv ∈ items →
       (∃ e ∈ a.imports, u = render e.1 ∧ v = render e.2) ∧ v ∈ g.importSuccs u ∧
       (ruleLayerMap mt g larch r).layerOf u = .ok tu ∧ (ruleLayerMap mt g larch r).layerOf v = .ok tv ∧ tu ≠ tv := by
-  have hw := archWF_of_wf a hwf
-  obtain ⟨S, O, tag, c, heq⟩ := layer_reduce mt a g hg hwf ls r hdom hany larch hres
-  rw [heq] at h
   intro u v b tu tv hmem
-  obtain ⟨e, he, hu, hv, htu, htv, hne⟩ := matchTail_sound c hw hg items h u v b tu tv hmem
-  refine ⟨⟨e, he, hu, hv⟩, ?_, ?_, ?_, hne⟩
-  · rw [hu, hv]; exact (hg.succs _ _).2 ⟨e, he, rfl, rfl⟩
-  · rw [hu, htu]; exact c.tagOk _ (hw.impL e he)
-  · rw [hv, htv]; exact c.tagOk _ (hw.impR e he)
+  obtain ⟨⟨e, he, hu, hv, _, _⟩, h2, h3, h4, h5⟩ := layer_report_sound_kept_lemma mt a g hg hwf ls r hany larch hres
+    (ldom_of_layerDomain' mt g.nodes a hwf ls r hdom larch hres) items h u v b tu tv hmem
+  exact ⟨⟨e, he, hu, hv⟩, h2, h3, h4, h5⟩
+
+/-- name layers resolve to themselves -/
+theorem resolves_compileLArch (mt : Str → Str → Bool) (nodes : List Str) (ls : Layers) :
+    resolves mt nodes (compileLArch ls) ls = true := by
+  induction ls with
+  | nil => rfl
+  | cons l ls ih =>
+    show resolves mt nodes ((l.1, l.2.map fun m => Filter.name (render m)) :: compileLArch ls) (l :: ls) = true
+    rw [resolves_cons]
+    exact ⟨rfl, by simp [layerRes], ih⟩
+
+/-- C05 on name layers -/
+theorem layer_verdict_names_lemma (mt : Str → Str → Bool) (a : Arch) (g : PGraph Str) (hg : GraphOf a g)
+    (hwf : a.wf = true) (ls : Layers) (r : LRuleSpec) (hdom : layerDomain' a ls r = true)
+    (hany : r.anything = true → r.verb = .shouldNot) :
+    (assertAppliesLayer mt (compileLayerRule (compileLArch ls) r) g).cls = VClass.ofBool (layerVerdict a ls r) :=
+  layer_verdict_lemma mt a g hg hwf ls r hdom hany _ (resolves_compileLArch mt g.nodes ls)
+
+/-- soundness of the report on name layers: reported imports are imports between different layers -/
+theorem layer_report_sound_names_lemma (mt : Str → Str → Bool) (a : Arch) (g : PGraph Str) (hg : GraphOf a g)
+    (hwf : a.wf = true) (ls : Layers) (r : LRuleSpec) (hdom : layerDomain' a ls r = true)
+    (hany : r.anything = true → r.verb = .shouldNot) (items : List LItem)
+    (h : assertAppliesLayer mt (compileLayerRule (compileLArch ls) r) g = .fail items) :
+    ∀ u v b tu tv, LItem.imp u v b tu tv ∈ items →
+      ∃ e ∈ a.imports, u = render e.1 ∧ v = render e.2 ∧ tu = layerTag ls e.1 ∧ tv = layerTag ls e.2 ∧ tu ≠ tv := by
+  intro u v b tu tv hmem
+  have hres := resolves_compileLArch mt g.nodes ls
+  obtain ⟨⟨e, he, hu, hv, htu, htv⟩, _, _, _, hne⟩ := layer_report_sound_kept_lemma mt a g hg hwf ls r hany _ hres
+    (ldom_of_layerDomain' mt g.nodes a hwf ls r hdom _ hres) items h u v b tu tv hmem
+  have hk : ruleLayers (compileLArch ls) ls r = ls := keptLayers_names _ ls
+  rw [hk] at htu htv
+  exact ⟨e, he, hu, hv, htu, htv, hne⟩
 
 /-- the `any layer` aliases exist only for `should_not` -/
 theorem any_layer_misused_lemma (mt : Str → Str → Bool) (g : PGraph Str) (larch : LArch) (r : LRuleSpec)
@@ -599,39 +783,20 @@ theorem resolves_hasLayer (mt : Str → Str → Bool) (nodes : List Str) (larch 
 
 /-- C05 through the fluent builder: the complete call chain followed by `assert_applies` -/
 theorem layer_verdict_chain_lemma (mt : Str → Str → Bool) (a : Arch) (g : PGraph Str) (hg : GraphOf a g)
-    (hwf : a.wf = true) (ls : Layers) (r : LRuleSpec) (hdom : layerDomain a ls r = true)
+    (hwf : a.wf = true) (ls : Layers) (r : LRuleSpec) (hdom : layerDomain' a ls r = true)
     (hany : r.anything = true → r.verb = .shouldNot)
     (larch : LArch) (hres : resolves mt g.nodes larch ls = true) (isList : Bool) :
     (runLayerRuleOps mt (layerRuleOps larch r isList) g).1.cls = VClass.ofBool (layerVerdict a ls r) := by
-  have hw := archWF_of_wf a hwf
-  have hd := ldom_of_layerDomain a ls r hdom
-  have c0 := lctx_names hw hd
+  have hd' := ldom'_of_layerDomain' a ls r hdom
+  have hd := ldom_of_ldom' (archWF_of_wf a hwf) hd'
   rw [runLayerRuleOps_chain_lemma mt g larch r isList]
   · exact layer_verdict_lemma mt a g hg hwf ls r hdom hany larch hres
   · rw [resolves_hasLayer mt g.nodes larch ls hres]; exact hd.subj
-  · exact layerRes_ne_nil (resolves_getD mt g.nodes larch ls hres r.subject hd.subj) c0.sne
+  · exact layerRes_ne_nil (resolves_getD mt g.nodes larch ls hres r.subject hd.subj) hd.subjNe
   · intro hanyB
     rw [List.all_eq_true]
     intro on hon
     rw [resolves_hasLayer mt g.nodes larch ls hres]
     exact (hd.obj hanyB on hon).1
-
-/-- the specification's verdict looks only at the layers the rule mentions -/
-theorem layerVerdict_congr (a : Arch) (ls ls' : Layers) (r : LRuleSpec)
-    (hs : ls.get r.subject = ls'.get r.subject) (ho : ∀ on ∈ r.objects, ls.get on = ls'.get on) :
-    layerVerdict a ls r = layerVerdict a ls' r := by
-  have : r.objects.map ls.get = r.objects.map ls'.get := List.map_congr_left ho
-  unfold layerVerdict
-  rw [hs, this]
-
-/-- name layers resolve to themselves -/
-theorem resolves_compileLArch (mt : Str → Str → Bool) (nodes : List Str) (ls : Layers) :
-    resolves mt nodes (compileLArch ls) ls = true := by
-  induction ls with
-  | nil => rfl
-  | cons l ls ih =>
-    show resolves mt nodes ((l.1, l.2.map fun m => Filter.name (render m)) :: compileLArch ls) (l :: ls) = true
-    rw [resolves_cons]
-    exact ⟨rfl, by simp [layerRes], ih⟩
 
 end Pta
